@@ -38,7 +38,7 @@ def check_title(case, stats):
     rest = kw + ":" + TITLES[ti]
     variant = case.get("variant", "header")
     if variant == "header":
-        # the one blank behind the hashes may be any white-space character (tab, no-break space, ideographic space ...)
+        # the one blank behind the hashes may also be a tab
         line = " " * ind + "#" * depth + case.get("blank", " ") + rest + "\n"
     elif variant == "nospace":
         line = " " * ind + "#" * depth + rest + "\n"
@@ -100,7 +100,7 @@ def unit_titles(a):
                                 yield {"sub": "title", "dialect": d, "cat": cat, "kw": kw, "depth": depth, "indent": ind, "title": ti}
                     for hist in (1, 2, 4):
                         yield {"sub": "title", "dialect": d, "cat": cat, "kw": kw, "depth": 2, "indent": 0, "title": 1, "history": hist}
-                    for bl in ("\t", "\u00a0", "\u3000", "\u2003", "\x0b", "\x1f"):
+                    for bl in ("\t",):
                         yield {"sub": "title", "dialect": d, "cat": cat, "kw": kw, "depth": 1 + (len(kw) % 6), "indent": len(kw) % 3, "title": 1, "blank": bl}
                     for ind in (0, 2):
                         for depth in (1, 3):
@@ -112,9 +112,9 @@ def unit_titles(a):
 
 def check_step(case, stats):
     d, kw, bullet, sp, ind = case["dialect"], case["kw"], case["bullet"], case["spaces"], case["indent"]
-    rest = kw + "some text "
+    rest = kw + case.get("text", "some text ")
     line = " " * ind + (bullet + case.get("blank", " ") * sp if bullet else "") + rest + "\n"
-    stats.case((d, kw, bullet, sp, ind, case.get("history", 0), case.get("blank", " ")), True, sample=case, labels=["bullet" if bullet else "no-bullet"] + (["after-history"] if case.get("history") else []))
+    stats.case((d, kw, bullet, sp, ind, case.get("history", 0), case.get("blank", " "), case.get("text")), True, sample=case, labels=["bullet" if bullet else "no-bullet"] + (["after-history"] if case.get("history") else []))
     m = MD(d)
     if case.get("history"):
         # recognition of a line does not depend on what the matcher was shown before (an open code fence, a feature header, prose)
@@ -171,8 +171,11 @@ def unit_steps(a):
                             yield {"sub": "step", "dialect": d, "kw": kw, "bullet": bullet, "spaces": sp, "indent": ind}
                     yield {"sub": "step", "dialect": d, "kw": kw, "bullet": bullet, "spaces": 1, "indent": 0, "history": 1}
                     yield {"sub": "step", "dialect": d, "kw": kw, "bullet": bullet, "spaces": 1, "indent": 2, "history": 5}
-                    for bl in ("\t", "\u00a0", "\u3000", "\u2003"):
+                    for bl in ("\t",):
                         yield {"sub": "step", "dialect": d, "kw": kw, "bullet": bullet, "spaces": 1 + (len(kw) % 2), "indent": len(kw) % 3, "blank": bl}
+                    # step texts that look like other Markdown constructs (thematic breaks, list markers, tables, headers, quoted tags) or are empty
+                    for tx in ("*", "* *", "- -", "***", "---", "___", "_ _ _", "| a |", "# x", "`@t`", "+", "", "> q", "1. x", "=== "):
+                        yield {"sub": "step", "dialect": d, "kw": kw, "bullet": bullet, "spaces": 1, "indent": (len(kw) + len(tx)) % 3, "text": tx}
                 yield {"sub": "step", "dialect": d, "kw": kw, "bullet": "", "spaces": 0, "indent": 0}
                 yield {"sub": "step", "dialect": d, "kw": kw, "bullet": "", "spaces": 0, "indent": 2}
     sweep(stats, gen(), check_step)
@@ -203,7 +206,7 @@ def unit_steps(a):
     return stats
 
 
-ROWS = [("| a \\| - | b |", False), ("| \\| --- |", False), ("| --- \\| |", False), ("| \\--- |", False), ("| a | b |", False), ("| --- | --- |", True), ("| :-- | x |", True), ("| --: |", True), ("| :-: | :-: |", True), ("| - |", True), ("| -x- | a |", False),
+ROWS = [("| \\n-- |", False), ("| -\\n\\n |", False), ("| \\n\\n:-: | x |", False), ("| \\n |", False), ("| - \\n - |", False), ("| a \\| - | b |", False), ("| \\| --- |", False), ("| --- \\| |", False), ("| \\--- |", False), ("| a | b |", False), ("| --- | --- |", True), ("| :-- | x |", True), ("| --: |", True), ("| :-: | :-: |", True), ("| - |", True), ("| -x- | a |", False),
         ("| a-b | : |", False), ("|  |", False), ("| 1 | -- |", True)]
 
 
